@@ -5,7 +5,7 @@ from-scratch build of the same sources (fresh workspace, fresh cache root) must 
 import json
 import vlib, buildlib as bl, histcheck as hc
 
-GUARDS = [("alias-dep-not-in-key", hc.g_no_alias_deps), ("key-collision", hc.g_key_injective),
+GUARDS = [("alias-dep-not-in-key", hc.g_no_alias_deps),
           ("nocache-output-hash-ignores-paths", hc.g_no_nocache_multiout_dep)]
 
 
@@ -63,7 +63,9 @@ def witness_dep_swap(out, findings):
 def run(out, tier):
     n_clean, n_full = (40, 40) if tier == "quick" else (600, 900)
     plans = [("witness-alias", hc.witness_alias_change()), ("witness-file-boundary", hc.witness_file_boundary())]
-    plans += [("clean", hc.plan_edits(hc.CLEAN, nedits=3, forbid=("byte moved",)))] * n_clean
+    # byte-shift edits (a byte moves from the end of one input file to the start of the next) are part of BOTH streams: the key
+    # encoding is framed (C09_injective), such an edit changes the key and the target is rebuilt (former finding C01-F2)
+    plans += [("clean", hc.plan_edits(hc.CLEAN, nedits=3))] * n_clean
     plans += [("full", hc.plan_edits(hc.FULL, nedits=3))] * n_full
     batch = hc.run_batch(plans, vlib.seed())
     findings = {f["class"]: f for f in vlib.known_findings("C01")}
@@ -99,7 +101,8 @@ def run(out, tier):
         "rule": "random workspaces (2-5 targets, aliases, file and dir:: outputs, literal and glob inputs with excludes, fingerprints, "
                 "nested packages, no-cache targets) and histories of 3 edits with a build after each (+ a no-op rebuild), run on the real "
                 "binary with one persistent GROG_ROOT and through Build.run_history; two streams: 'clean' (all guards of the partial "
-                "theorem hold by construction) and 'full' (aliases, sub-directory outputs, no-cache, adversarial byte-shift edits); "
+                "theorem hold by construction) and 'full' (aliases, sub-directory outputs, no-cache); both with adversarial byte-shift "
+                "edits, plus the witness histories (alias change, byte moved across an input-file boundary: both must rebuild); "
                 "non-trivial = at least two source/taint/perturb operations and two builds; distinct = distinct op lists",
         "samples": hc.sample(batch, 3),
         "traces_validated_against_impl": st["histories"],
